@@ -86,6 +86,7 @@ func (c *Map) FindRegex(key *regexp.Regexp) []types.MatchData {
 			i++
 		}
 	}
+	verifOrder(result)
 	return result
 }
 
@@ -140,6 +141,7 @@ func (c *Map) FindAll() []types.MatchData {
 			i++
 		}
 	}
+	verifOrder(result)
 	return result
 }
 
